@@ -96,6 +96,38 @@ def gen_out():
             reserve = n.slice.upper.right.value
             cut_bytes = isinstance(n.value, ast.Name) and n.value.id in encoded_names
     if reserve is None: raise ExtractionError('_truncateMsg: slice [:MAX_LINE_SIZE-k] not found')
+    # the encoder error handler _truncateMsg sizes the line with (must be the driver's)
+    trunc_errors = 'strict'
+    for n in ast.walk(tm):
+        if isinstance(n, ast.Call) and isinstance(n.func, ast.Attribute) and n.func.attr == 'encode':
+            if len(n.args) >= 2 and isinstance(n.args[1], ast.Constant): trunc_errors = n.args[1].value
+            for kw in n.keywords:
+                if kw.arg == 'errors' and isinstance(kw.value, ast.Constant): trunc_errors = kw.value.value
+    sock = parse('src/drivers/Socket.py')
+    sm = find_func(sock, '_sendIfMsgs', cls='SocketDriver')
+    encs = [n for n in ast.walk(sm) if isinstance(n, ast.Call) and isinstance(n.func, ast.Attribute) and n.func.attr == 'encode']
+    if len(encs) != 1: raise ExtractionError('SocketDriver._sendIfMsgs: expected exactly one .encode() call')
+    drv_errors = 'strict'
+    if len(encs[0].args) >= 2 and isinstance(encs[0].args[1], ast.Constant): drv_errors = encs[0].args[1].value
+    for kw in encs[0].keywords:
+        if kw.arg == 'errors' and isinstance(kw.value, ast.Constant): drv_errors = kw.value.value
+    # takeMsg: the label tag must be added before _truncateMsg (adding it resets msg._str)
+    tk = find_func(irclib, 'takeMsg', cls='Irc')
+    label_line = None; trunc_line = None
+    for n in ast.walk(tk):
+        if isinstance(n, ast.Call) and isinstance(n.func, ast.Attribute) and n.func.attr == '_truncateMsg':
+            trunc_line = n.lineno
+        if isinstance(n, ast.Assign) and any(isinstance(t, ast.Attribute) and t.attr == '_str' for t in n.targets):
+            label_line = max(label_line or 0, n.lineno)
+    if trunc_line is None: raise ExtractionError('Irc.takeMsg: call of _truncateMsg not found')
+    str_reset_after_truncate = label_line is not None and label_line > trunc_line
+    # Filter: the filter commands that may be installed as an outFilter
+    import warnings
+    with warnings.catch_warnings():
+        warnings.simplefilter('ignore')
+        filt = parse('plugins/Filter/plugin.py')
+    fc = literal(find_assign(filt, '_filterCommands', cls='Filter'), 'Filter._filterCommands')
+    if not (isinstance(fc, list) and all(isinstance(x, str) for x in fc)): raise ExtractionError('Filter._filterCommands: expected a list of str')
     # inventory
     helpers = _helpers()
     sites = []
@@ -118,8 +150,15 @@ def gen_out():
             '/-- Irc._truncateMsg measures the UTF-8 bytes of the non-tag part, and cuts the bytes -/\n'
             'def truncateCountsBytes : Bool := %s\ndef truncateCutsBytes : Bool := %s\n'
             '/-- … and keeps MAX_LINE_SIZE minus this many bytes before appending CR LF -/\ndef truncateReserve : Nat := %d\n\n'
+            '/-- the `errors` argument of str.encode in Irc._truncateMsg and in SocketDriver._sendIfMsgs -/\n'
+            'def truncateErrors : String := %s\ndef driverErrors : String := %s\n\n'
+            '/-- Irc.takeMsg resets msg._str (label tag) after _truncateMsg stored the cut there -/\n'
+            'def strResetAfterTruncate : Bool := %s\n\n'
+            '/-- Filter._filterCommands: what a channel op may install as an outFilter -/\n'
+            'def filterOutCommands : List String := %s\n\n'
             '/-- IrcMsg constructions that bypass the argument assertion: (file, enclosing scope, branch) -/\n'
             'def rawMsgSites : List (String × String × String) :=\n  %s\n\nend Gen\n') % (
         mls, llist(lchar(c) for c in chars), 'true' if counts_bytes else 'false', 'true' if cut_bytes else 'false', reserve,
+        lstring(trunc_errors), lstring(drv_errors), 'true' if str_reset_after_truncate else 'false', llist(lstring(x) for x in fc),
         llist('(%s, %s, %s)' % (lstring(a), lstring(b), lstring(c)) for a, b, c in sites))
     write_if_changed('Out.lean', body, 'src/irclib.py, src/ircutils.py, src/**/*.py, plugins/**/*.py')
